@@ -165,7 +165,7 @@ Proof.
                                let st5 := if f_nopy (get st4 p) then nopy_walk (List.length st4) st4 p e else st4 in
                                (st5, Exc e) end))).
   { intros st2 r Hk. eapply keeps_trans; [exact H1|]. eapply keeps_trans; [exact Hk|]. apply except_keeps. }
-  destruct s as [n ok|n|n kids|n steps|n bs|n bs|n cs].
+  destruct s as [n ok|n|n kids|n steps|n bs|n bs|n cs|n ok kid].
   - destruct ok; [apply (Hbody st1 (Ret (2000 + n)) (keeps_refl st1)) | apply (Hbody st1 (Exc n) (keeps_refl st1))].
   - apply (Hbody st1 (Ret 0) (keeps_refl st1)).
   - pose proof (nest_loop_keeps (glom_ fuel) IH n kids st1 (List.length st) t) as H.
@@ -178,6 +178,9 @@ Proof.
     destruct (or_loop (glom_ fuel) st1 (List.length st) t bs) as [st2 r]. apply Hbody. exact H.
   - pose proof (switch_loop_keeps (glom_ fuel) IH (5000 + n) cs st1 (List.length st) t) as H.
     destruct (switch_loop (glom_ fuel) (5000 + n) st1 (List.length st) t cs) as [st2 r]. apply Hbody. exact H.
+  - pose proof (IH st1 (List.length st) t kid) as H.
+    destruct (glom_ fuel st1 (List.length st) t kid) as [st2 [v|e]]; cbn [fst] in H;
+      [destruct ok; [apply (Hbody st2 (Ret t) H)|apply (Hbody st2 (Exc (6000 + n)) H)]|apply (Hbody st2 (Exc e) H)].
 Qed.
 
 (* the frame an evaluation creates names its spec occurrence, the target it was called with and the frame it was called from —
@@ -205,7 +208,7 @@ Proof.
                                  let st5 := if f_nopy (get st4 p) then nopy_walk (List.length st4) st4 p e else st4 in
                                  (st5, Exc e) end))).
     { intros st2 r Hk2. eapply keeps_trans; [exact Hk2|]. apply except_keeps. }
-    destruct s as [n ok|n|n kids|n steps|n bs|n bs|n cs].
+    destruct s as [n ok|n|n kids|n steps|n bs|n bs|n cs|n ok kid].
     - destruct ok; [apply (Hbody st1 (Ret (2000 + n)) (keeps_refl st1)) | apply (Hbody st1 (Exc n) (keeps_refl st1))].
     - apply (Hbody st1 (Ret 0) (keeps_refl st1)).
     - pose proof (nest_loop_keeps (glom_ fuel) (glom_keeps fuel) n kids st1 (List.length st) t) as H.
@@ -217,7 +220,10 @@ Proof.
     - pose proof (or_loop_keeps (glom_ fuel) (glom_keeps fuel) bs st1 (List.length st) t) as H.
       destruct (or_loop (glom_ fuel) st1 (List.length st) t bs) as [st2 r]. apply Hbody. exact H.
     - pose proof (switch_loop_keeps (glom_ fuel) (glom_keeps fuel) (5000 + n) cs st1 (List.length st) t) as H.
-      destruct (switch_loop (glom_ fuel) (5000 + n) st1 (List.length st) t cs) as [st2 r]. apply Hbody. exact H. }
+      destruct (switch_loop (glom_ fuel) (5000 + n) st1 (List.length st) t cs) as [st2 r]. apply Hbody. exact H.
+    - pose proof (glom_keeps fuel st1 (List.length st) t kid) as H.
+      destruct (glom_ fuel st1 (List.length st) t kid) as [st2 [v|e]]; cbn [fst] in H;
+        [destruct ok; [apply (Hbody st2 (Ret t) H)|apply (Hbody st2 (Exc (6000 + n)) H)]|apply (Hbody st2 (Exc e) H)]. }
   destruct Hk as [Hk1 Hk2]. split; [lia|]. split.
   - rewrite Hk2 by lia. exact Hid.
   - intros i Hi. rewrite Hk2 by lia. unfold st1. rewrite get_upd.
